@@ -179,7 +179,10 @@ func (n *DLQHandlerNode) Nack(msg *Message, nackMetadata NackMetadata) error {
 	writeTime := time.Now()
 	err = n.Handler.Write(msg.Ctx, dlqRecord)
 	if err != nil {
-		return err
+		// The DLQ write failed: the record is neither delivered nor
+		// dead-lettered. Restarting would only re-read and fail again, so stop
+		// the pipeline for good (same as the arch-v2 engine, funnel.DLQ.Nack).
+		return cerrors.FatalError(err)
 	}
 	n.Timer.Update(time.Since(writeTime))
 	n.Histogram.Observe(dlqRecord)
